@@ -309,7 +309,9 @@ func verifOnCompleteSteps(vc verifCase, res *verifStepResult) {
 		if unsel[i] {
 			continue
 		}
-		infos[i] = &nodeInfo{done: make(chan Completion, 1), ready: make(chan interface{}, 1), cancel: make(chan interface{}, 1)}
+		// no routine consumes the ready messages here, and a dependency listed twice sends two of them: give the
+		// channel room (Walk uses capacity 1 and a consumer) - only "holds a ready message" is compared
+		infos[i] = &nodeInfo{done: make(chan Completion, 1), ready: make(chan interface{}, 64), cancel: make(chan interface{}, 1)}
 		w.nodeInfoMap[nodes[i].Label] = infos[i]
 	}
 	for i := 0; i < vc.N; i++ {
